@@ -260,13 +260,13 @@ theorem intEnd_eval (p : PState) (minus ip : Bytes) (hm : minus = [] ∨ minus =
   simp only [hb]
   cases hip with
   | zero =>
-    rcases hm with rfl | rfl <;> simp [cAt] <;> rfl
+    rcases hm with rfl | rfl <;> simp [cAt, leadingZeroBad] <;> rfl
   | nz c ds h1 h2 hds =>
     have hc48 : c ≠ 48 := by intro h0; subst h0; revert h1; decide
     have hc45 : c ≠ 45 := by intro h0; subst h0; revert h1; decide
     rcases hm with rfl | rfl
-    · simp [cAt, hc48, hc45]
-    · simp [cAt, hc48]
+    · simp [cAt, leadingZeroBad, hc48, hc45]
+    · simp [cAt, leadingZeroBad, hc48]
 
 theorem intEnd_step (k : Ctx) (K : List Ctx) (L : List Open) (P : List Bytes) (j : Junk) (minus ip : Bytes)
     (hm : minus = [] ∨ minus = [45]) (hip : IntPart ip) (d : UInt8) (rest : Bytes) (hd : isDelim d)
